@@ -1323,7 +1323,7 @@ def stage(ctx, focus="C06"):
             out["infra_errors"].append("shrink failed: %r" % (e,))
         rs = run_both(exe, [small])[0]
         k2, d2 = classify(small, rs)
-        case = {"input": small, "shrunk_from": prog if small != prog else "", "name": name, "focus": focus,
+        case = {"input": small, "shrunk_from": prog if small != prog else "", "name": name, "focus": focus, "component": "SlotG",
                 "impl": "\n".join(rs["impl"]) + (("\n<" + rs["crash"] + ">") if rs["crash"] else ""),
                 "model": "\n".join(rs["model"]), "detail": d2 or detail}
         (out["monitor_failures"] if kind == "monitor" else out["disagreements"]).append(case)
